@@ -4,6 +4,7 @@
 //!          FULL=<res> <font description> | PART=<res> <font description> | GARB=<res> <font description>`
 //!   sw bits: 1 lib, 2 groups, 4 kerning, 8 features, 16 data, 32 images
 //!   shape: 0 all, 1 none, 2 default only, 3 by name, 4 by directory, 5 always true, 6 always false,
+//!          10 everything but the default directory,
 //!          7 default + by name, 8 always-false filter then layers(true), 9 layers(true) then default_layer(false)
 //!   miss: bit set = that optional file / directory is absent (lib, fontinfo, groups, kerning, features, data/, images/, layerinfo)
 //!   REQ = `<all><loadDefault><custom>` custom = `-` | `n<hexname>` | `d<hexdir>` | `t` | `f`
@@ -37,7 +38,7 @@ fn plist_dict(entries: &[(String, String)]) -> String {
     s
 }
 
-fn gen_tree(seed: u64, extra: usize) -> Tree {
+fn gen_tree(seed: u64, extra: usize, dpos: usize, up: bool) -> Tree {
     let mut rng = Rng::new(seed);
     let mut t = Tree { files: BTreeMap::new(), dirs: vec![], layers: vec![] };
     let mut put = |t: &mut Tree, p: &str, bytes: String, tok: String| {
@@ -121,9 +122,19 @@ fn gen_tree(seed: u64, extra: usize) -> Tree {
         let (n, d) = pool[(start + i) % pool.len()];
         layers.push((n.to_string(), d.to_string()));
     }
+    if up && !layers.is_empty() {
+        // a directory that differs from the default layer's only by case
+        layers[0] = ("Upper".to_string(), "GLYPHS".to_string());
+    }
     let dname = if rng.chance(1, 3) { "foreground" } else { "public.default" };
-    let pos = rng.below(layers.len() + 1);
-    layers.insert(pos, (dname.to_string(), "glyphs".to_string()));
+    // position of the default layer in layercontents.plist: 0 random, 1 last, 2 in the middle
+    let rpos = rng.below(layers.len() + 1);
+    let pos = match dpos {
+        1 => layers.len(),
+        2 => layers.len() / 2 + layers.len() % 2,
+        _ => rpos,
+    };
+    layers.insert(pos.min(layers.len()), (dname.to_string(), "glyphs".to_string()));
     let mut lc = String::from(HDR);
     lc.push_str("<array>\n");
     for (n, d) in &layers {
@@ -236,7 +247,9 @@ impl Req {
             // builder order matters: `layers(true)` after a filter keeps the (now irrelevant) predicate;
             // `default_layer(false)` switches `all` off as a side effect
             8 => r.filter_layers(|_, _| false).layers(true),
-            _ => r.layers(true).default_layer(false),
+            9 => r.layers(true).default_layer(false),
+            // everything but the default layer: >= 2 layers kept while the default is filtered out
+            _ => r.filter_layers(|_, p| p != Path::new("glyphs")),
         };
         r
     }
@@ -251,6 +264,7 @@ impl Req {
             4 => format!("d{}", hexs(&self.dir)),
             5 => "t".into(),
             6 | 8 => "f".into(),
+            10 => "x".into(),
             _ => "-".into(),
         };
         format!("{}{}{}", all, ld, custom)
@@ -260,6 +274,7 @@ impl Req {
         match self.shape {
             0 | 5 | 8 => true,
             1 | 6 | 9 => false,
+            10 => d != "glyphs",
             2 => d == "glyphs",
             3 => n == self.name,
             4 => d == self.dir,
@@ -341,7 +356,9 @@ pub fn observe(toks: &[&str], scratch: &Path) -> String {
     let sw: u32 = field(toks, "sw").parse().unwrap_or(0);
     let shape: u32 = field(toks, "shape").parse().unwrap_or(0);
     let pick: usize = field(toks, "pick").parse().unwrap_or(0);
-    let mut t = gen_tree(seed, extra);
+    let dpos: usize = field(toks, "dpos").parse().unwrap_or(0);
+    let up = field(toks, "up") == "1";
+    let mut t = gen_tree(seed, extra, dpos, up);
     // optional files that are simply absent (bit set): lib, fontinfo, groups, kerning, features, data/, images/,
     // every layerinfo.plist
     let miss: u32 = field(toks, "miss").parse().unwrap_or(0);
@@ -390,10 +407,16 @@ pub fn gen(tier: &str, seed: u64, out: &mut dyn Write) {
         let extra = ti % 4;
         let pick = rng.below(4);
         for sw in 0..64 {
-            for shape in 0..10 {
+            for shape in 0..11 {
                 // trees 0-3: every optional file present; later trees: some of them absent
                 let miss = [0u32, 0, 0, 0, 0b0011111, 0b11100010, 0b01010101, 0b10101010][ti % 8];
-                let recipe = format!("tree={} extra={} sw={} shape={} pick={} miss={}", tseed, extra, sw, shape, pick, miss);
+                // layer order and case: default last / in the middle with 2-3 other layers, a `GLYPHS` directory
+                let dpos = [0usize, 0, 1, 2, 0, 1][ti % 6];
+                let up = [0u32, 1, 0, 1, 0, 1][ti % 6];
+                let recipe = format!(
+                    "tree={} extra={} sw={} shape={} pick={} miss={} dpos={} up={}",
+                    tseed, extra, sw, shape, pick, miss, dpos, up
+                );
                 let toks: Vec<&str> = recipe.split(' ').collect();
                 let obs = observe(&toks, &scratch);
                 writeln!(out, "C17 {} => {}", recipe, obs).unwrap();
